@@ -171,7 +171,7 @@ pub fn programs() -> Vec<Prog> {
 fn build_rlib(r: &Runner) -> Option<String> {
     let dir = format!("{}/target/c04", crate::verif_dir());
     let out = Command::new("cargo")
-        .current_dir("/repo")
+        .current_dir(crate::repo_dir())
         .args(["build", "--release", "--offline", "--target-dir", &dir])
         .env("RUSTFLAGS", "--cap-lints warn")
         .output();
